@@ -1,5 +1,5 @@
 import Casm.Model.ExprEval
-import Casm.Model.ExprParse
+import Casm.Model.Parse
 import Casm.Proofs.ExprLemmas
 /-!
 # C05 — expressions compute exact unbounded-integer mathematics with tracked sizes
